@@ -18,6 +18,12 @@ const fixedPrelude = `(define-fun godiv ((a Int) (b Int)) Int (ite (= (>= a 0) (
 (define-fun gomod ((a Int) (b Int)) Int (- a (* b (godiv a b))))
 (declare-fun at (Int Int) Int)
 (assert (forall ((o Int) (i Int)) (! (= (at o i) (+ o i)) :pattern ((at o i)))))
+(declare-fun bitand (Int Int) Int)
+(declare-fun bitor (Int Int) Int)
+(declare-fun bitxor (Int Int) Int)
+(declare-fun bitshl (Int Int) Int)
+(declare-fun bitshr (Int Int) Int)
+(declare-fun bitandnot (Int Int) Int)
 (define-fun itoa ((i Int)) String (ite (>= i 0) (str.from_int i) (str.++ "-" (str.from_int (- i)))))
 `
 
